@@ -78,3 +78,7 @@ Fixpoint run_prefix (c : cfg) (s : st) (ls : list label) (k : N) : N :=
   end.
 Definition run_pipeline_prefix (nw cap_ : N) (keep : bool) (items : list (option (list (name * cov_l)) * N)) (ls : list label) :=
   let c := mk_cfg nw cap_ keep items in run_prefix c (init c (map N.of_nat (seq 0 (length items)))) ls 0.
+
+(* file level: add_results over the concatenation of the batches (what the consumer loop does, one batch per item) *)
+Definition run_addres (batches : list (list (name * cov_l))) : list (name * cov_l) :=
+  map (fun '(n, c) => (n, cov_to_l c)) (map_to_list (add_results ∅ (concat (map results_of_l batches)))).
